@@ -481,6 +481,9 @@ impl<'a> BlobRef<'a> {
                 backtrack_data_idx = next_char(backtrack_data_idx);
                 data_idx = backtrack_data_idx;
                 pattern_idx = backtrack_pattern_idx;
+                // (a pattern that ends in a lone backslash leaves the escape state set: it matches nothing, with
+                // or without a % before it)
+                in_escape = false;
             } else {
                 // Pattern exhausted but data remains, and no % to expand (a pattern that ends in an unescaped %
                 // has one: a final `\%` is a literal per cent sign, not a wildcard)
